@@ -227,7 +227,7 @@ def run(ctx, model_ok=True):
     res = vlib.Result()
     info = gen_info(ctx)
     corpus = [c for c in vlib.load_corpus(PROP) if isinstance(c, dict) and "steps" in c]
-    scenarios = corpus + make_scenarios(ctx, ctx.n(1200, 14000))
+    scenarios = corpus + make_scenarios(ctx, ctx.n(1400, 14000))
     results = execute(ctx, scenarios, info)
     collect(ctx, res, scenarios, results, model_ok and info is not None)
     res.rule = ("one case = one scenario on a real daemon over loopback: a witness client connected throughout, 1-5 attacking "
